@@ -76,6 +76,10 @@ CHECKS["C01"] = dict(
     note="Declaration sets are bounded (depth <= 4, <= 14 declarations, ASCII mnemonics); all-optional paths are excluded. The compiler is the executor of the generated case.",
     design="5/C01", engine="generated-program-pipeline")
 CHECKS["C02"]["engine"] = "proptest-harness + generated-program-pipeline"
+CHECKS["C03"]["engine"] = "proptest-harness + generated-program-pipeline"
+CHECKS["C12"]["engine"] = "proptest-harness + generated-program-pipeline + libFuzzer (thorough)"
+CHECKS["C05"]["engine"] = "proptest-harness + libFuzzer (thorough)"
+CHECKS["C07"]["engine"] = "proptest-harness + libFuzzer (thorough)"
 CHECKS["C06"]["engine"] = "proptest-harness + generated-program-pipeline"
 CHECKS["C14"] = dict(
     technique="property-based testing over generated programs: ambiguous declaration sets must fail to compile (cargo check diagnostics mapped to each set), their minimally de-collided twins must compile and reach every handler (reference dictionary as oracle)",
@@ -114,8 +118,10 @@ def main():
             "add_only": True,
         },
         "engines": [
-            {"name": "generated-program-pipeline", "path": "/verif/harness/gen", "serves_properties": ["C01", "C02", "C06", "C14"],
+            {"name": "generated-program-pipeline", "path": "/verif/harness/gen", "serves_properties": ["C01", "C02", "C03", "C06", "C12", "C14"],
              "kind_free_text": "vcore::treegen generates declaration sets from the seed; gen/build.rs and genamb/build.rs emit them as Rust modules using the real #[microscpi::interface] macro; cargo compiles them (genamb is expected to fail, its diagnostics are mapped back to each generated set); a driver linked into the same crate attacks every generated interface"},
+            {"name": "libfuzzer-targets", "path": "/verif/harness/fuzz", "serves_properties": ["C05", "C07", "C12"],
+             "kind_free_text": "cargo-fuzz crate (fz_stream, fz_parse) whose targets call fixture::fuzzing::{stream_case_for, parse_case}: the semantic oracles are inside the target; run by ./check in the thorough tier (12 jobs, -runs bounded, built without sanitizer: the library has no unsafe code), findings are written as replay files by the target itself and re-executed by the *.fuzz_replay sub-checks"},
             {"name": "proptest-harness", "path": "/verif/harness", "serves_properties": sorted(CHECKS.keys()),
              "kind_free_text": "cargo workspace: vcore (choice tapes, proptest driver, reference models, exact decimal/float arithmetic, decoder), vrun (executor, recording writer/adapter/queue), fixture (interfaces generated through the real #[microscpi::interface] macro, one binary per property)"},
         ],
